@@ -1004,12 +1004,15 @@ func runL2(c *driver.Ctx) {
 }
 
 func run(c *driver.Ctx) {
-	// case index ranges (for --replay): L1 fan-out < 100 M <= L2 < 500 M <= L1 routers
+	// case index ranges (for --replay): L1 fan-out < 100 M <= L2 < 500 M <= L1 routers < 800 M <= L1 real exporters
 	if c.Only < 100_000_000 {
 		runL1(c)
 	}
-	if c.Only < 0 || c.Only >= 500_000_000 {
+	if c.Only < 0 || (c.Only >= 500_000_000 && c.Only < 800_000_000) {
 		runL1Routers(c)
+	}
+	if c.Only < 0 || c.Only >= 800_000_000 {
+		runL1Real(c)
 	}
 	if c.Only < 0 || (c.Only >= 100_000_000 && c.Only < 500_000_000) {
 		runL2(c)
